@@ -59,12 +59,15 @@ class TlcResult:
 
 
 def run_tlc(module, cfg_text, *, workers=None, simulate=None, depth=None, seed=None,
-            env=None, timeout=1800, coverage=True, extra_modules=(), tags=("BEH",),
+            env=None, timeout=None, coverage=True, extra_modules=(), tags=("BEH",),
             want_violation=False, deadlock=False, heap="6g", keep=None):
     """Run TLC on spec/<module>.tla with the given cfg text in a scratch dir.
 
     Lines printed as PrintT(<<"TAG", ToJson(x)>>) are collected in result.lines[TAG].
     """
+    if timeout is None:
+        # generous: a TLC run that takes 10 min on an idle 16-core machine must not fail the check on a loaded one
+        timeout = 1800 if os.environ.get("VERIF_TIER", "quick") == "quick" else 4 * 3600
     res = TlcResult()
     tmp = tempfile.mkdtemp(prefix="verif_tlc_")
     try:
